@@ -706,6 +706,63 @@ def gen_known(seed):
         {"stream": "known", "seed": seed, "class": "F8"}
 
 
+# ---------------------------------------------------------------------------------------- chains (C07)
+CLASS_REP = {9: ["Multiply", "ShiftLeft", "ShiftRight"], 8: ["Divide"],
+             7: ["And", "Eq", "NotEq", "Great", "Less", "GreatEq", "LessEq"],
+             6: ["Or", "Xor"], 5: ["Plus"], 4: ["Minus"]}
+CLASSES = [9, 8, 7, 6, 5, 4]
+
+
+def chain_program(rng, chains, tag0=0):
+    """One accepted program: a function whose lets are the given operator chains (lists of
+    priority classes) over extension leaves, plus literal / call / bracketed operands sampled in."""
+    g = Gen(0)
+    g.rng = rng
+    i32 = ["prim", "i32"]
+    tag = [tag0]
+
+    def leaf():
+        tag[0] += 1
+        return ["ext", i32, tag[0]]
+    lets = []
+    for k, ch in enumerate(chains):
+        e = ["expr", leaf()]
+        for c in ch:
+            e.append([rng.choice(CLASS_REP[c]), leaf()])
+        lets.append(["let", g.ident("c%d" % k), 0, ["noty"], e])
+    body = ["body"] + lets + [["ret", ["expr", ["prim", ["pv", "i32", 0]]]]]
+    return ["program", ["fn", g.ident("f"), ["params"], i32, body]]
+
+
+def all_class_chains(maxlen):
+    import itertools
+    for n in range(0, maxlen + 1):
+        for ch in itertools.product(CLASSES, repeat=n):
+            yield list(ch)
+
+
+def gen_chains_exhaustive(seed, maxlen=6, per_program=40):
+    rng = random.Random(seed)
+    out, cur = [], []
+    for ch in all_class_chains(maxlen):
+        cur.append(ch)
+        if len(cur) == per_program:
+            out.append((chain_program(rng, cur), {"stream": "chain", "exhaustive": maxlen}))
+            cur = []
+    if cur:
+        out.append((chain_program(rng, cur), {"stream": "chain", "exhaustive": maxlen}))
+    return out
+
+
+def gen_chains_random(seed, n, maxlen=14, per_program=8):
+    rng = random.Random(seed)
+    out = []
+    for _ in range(n):
+        chains = [[rng.choice(CLASSES) for _ in range(rng.randrange(2, maxlen))] for _ in range(per_program)]
+        out.append((chain_program(rng, chains), {"stream": "chain"}))
+    return out
+
+
 def generate(seed, n_wf, n_fault, n_free, n_known=0):
     """Deterministic batch: list of (program, meta)."""
     out = []
